@@ -9,7 +9,7 @@ EXPLANATION = ("C07: the C06 kernels (tagged operations under saturated/throwing
                "operation is an explicit trap block; the obligation per such block (and per abort with a message other "
                "than an overflow message, i.e. CNL_ASSERT / 'CNL internal error') is that no operand value with a "
                "non-zero divisor and non-negative shift count reaches it.  Debug- and release-contract (NDEBUG) builds.")
-BOUNDS = c06.BOUNDS
+BOUNDS = {k: v + "; plus %, >>, &, |, ^ under the three checked tags for 8 operand type pairs (operate and overflow_integer forms), NDEBUG twins of a sample, static_integer forms" for k, v in c06.BOUNDS.items()}
 ASSUMPTIONS = ["divisor != 0 and shift count >= 0 (the statement's own restrictions)"]
 
 STAT = {"sat": "cnl::saturated_overflow_tag", "thr": "cnl::_impl::throwing_overflow_tag", "trp": "cnl::trapping_overflow_tag"}
